@@ -47,7 +47,7 @@ Proof.
   unfold gen_PointerBuf_pop_back, pop_back, rfindN. change SLASH with 47.
   destruct (rfind 47 p) as [i|] eqn:R; cbn [option_map]; [|reflexivity].
   pose proof (rfind_lt _ _ _ R) as Hi.
-  unfold str_split_at, len.
+  unfold str_split_off, len.
   destruct (N.leb_spec (N.of_nat i + 1) (N.of_nat (length p))) as [_|H]; [|lia].
   replace (N.to_nat (N.of_nat i + 1)) with (S i) by lia. cbn [fst snd]. reflexivity.
 Qed.
@@ -65,7 +65,7 @@ Proof.
   rewrite slice_from_1_cons. cbn [skipn]. unfold findN. change SLASH with 47.
   destruct (find 47 r) as [i|] eqn:F; cbn [option_map].
   - pose proof (find_lt _ _ _ F) as Hi.
-    unfold str_split_at. rewrite len_cons. unfold len.
+    unfold str_split_off. rewrite len_cons. unfold len.
     destruct (N.leb_spec (N.of_nat i + 1) (N.of_nat (length r) + 1)) as [_|H]; [|lia].
     replace (N.to_nat (N.of_nat i + 1)) with (S i) by lia. cbn [fst snd firstn skipn].
     unfold str_remove. rewrite len_cons.
